@@ -115,10 +115,27 @@ func runC04(rc *RC) {
 	var f c04Fault
 	if enum {
 		j := rc.Index / len(hsKinds)
-		spaces := []int{pr.lc2s + 1, pr.ls2c + 1, pr.rc, pr.rs, pr.wc, pr.ws}
+		// every cut offset of both directions, every Read/Write index of both sides as a persistent error, as a one-shot
+		// error, and (writes) as a one-shot error reported after all the bytes went out
+		type espace struct {
+			n       int
+			kind    string
+			side    int
+			once    bool
+			partial int
+			base    int
+		}
+		spaces := []espace{
+			{pr.lc2s + 1, "cut", 0, false, 0, 0}, {pr.ls2c + 1, "cut", 1, false, 0, 0},
+			{pr.rc, "readerr", 0, false, 0, 1}, {pr.rs, "readerr", 1, false, 0, 1},
+			{pr.wc, "writeerr", 0, false, 0, 1}, {pr.ws, "writeerr", 1, false, 0, 1},
+			{pr.rc, "readerr", 0, true, 0, 1}, {pr.rs, "readerr", 1, true, 0, 1},
+			{pr.wc, "writeerr", 0, true, 0, 1}, {pr.ws, "writeerr", 1, true, 0, 1},
+			{pr.wc, "writeerr", 0, true, 1 << 30, 1}, {pr.ws, "writeerr", 1, true, 1 << 30, 1},
+		}
 		total := 0
 		for _, s := range spaces {
-			total += s
+			total += s.n
 		}
 		rc.Gauges["enum-total:"+kind] = total
 		if j >= total {
@@ -127,19 +144,13 @@ func runC04(rc *RC) {
 			return
 		}
 		rc.S.Probes["enum-done:"+kind]++
-		switch {
-		case j < spaces[0]:
-			f = c04Fault{kind: "cut", side: 0, k: j}
-		case j < spaces[0]+spaces[1]:
-			f = c04Fault{kind: "cut", side: 1, k: j - spaces[0]}
-		case j < spaces[0]+spaces[1]+spaces[2]:
-			f = c04Fault{kind: "readerr", side: 0, k: j - spaces[0] - spaces[1] + 1}
-		case j < spaces[0]+spaces[1]+spaces[2]+spaces[3]:
-			f = c04Fault{kind: "readerr", side: 1, k: j - spaces[0] - spaces[1] - spaces[2] + 1}
-		case j < spaces[0]+spaces[1]+spaces[2]+spaces[3]+spaces[4]:
-			f = c04Fault{kind: "writeerr", side: 0, k: j - spaces[0] - spaces[1] - spaces[2] - spaces[3] + 1}
-		default:
-			f = c04Fault{kind: "writeerr", side: 1, k: j - total + spaces[5] + 1}
+		off := j
+		for _, s := range spaces {
+			if off < s.n {
+				f = c04Fault{kind: s.kind, side: s.side, k: off + s.base, once: s.once, partial: s.partial}
+				break
+			}
+			off -= s.n
 		}
 		f.variant = j % 3
 		f.silent = j%2 == 0
@@ -148,7 +159,7 @@ func runC04(rc *RC) {
 		f.side = ch.Int("faults", 2)
 		f.variant = ch.Int("faults", 3)
 		f.silent = ch.Chance("faults", 1, 2)
-		f.once = ch.Chance("faults", 1, 4)
+		f.once = ch.Chance("faults", 1, 2)
 		switch f.kind {
 		case "cut":
 			L := []int{pr.lc2s, pr.ls2c}[f.side]
@@ -166,6 +177,9 @@ func runC04(rc *RC) {
 		case "writeerr":
 			f.k = 1 + ch.Int("faults", max(1, []int{pr.wc, pr.ws}[f.side]))
 			f.partial = ch.Int("faults", 40)
+			if ch.Chance("faults", 1, 3) {
+				f.partial = 1 << 30 // the error is reported although every byte went out
+			}
 		case "cancel":
 			f.k = ch.Int("faults", max(1, []int{pr.stepsC, pr.stepsS}[f.side]-p.C.retStep+max(pr.stepsC, pr.stepsS))+1)
 			f.k = ch.Int("faults", max(pr.stepsC, pr.stepsS)+2)
